@@ -112,12 +112,9 @@ func zzCheckInvariants(c *LRUCache, r *zzRef, step string) {
 
 // zzHistory drives k operations against the real cache and the reference.
 func zzHistory(k int, nkeys int, withTags bool) {
-	capacity := zzverif.Int("capacity")
-	zzverif.Assume(capacity >= 1 && capacity <= 3)
-	maxSize := zzverif.Int64("maxSize")
-	zzverif.Assume(maxSize >= 0 && maxSize <= 12)
-	dflt := zzverif.Int64("defaultTTL")
-	zzverif.Assume(dflt >= 0 && dflt <= 1000)
+	capacity := zzverif.IntRange("capacity", 1, 3)
+	maxSize := int64(zzverif.IntRange("maxSize", 0, 12))
+	dflt := int64(zzverif.IntRange("defaultTTL", 0, 1000))
 
 	c := zzNewCache(capacity, maxSize, time.Duration(dflt))
 	defer c.Close()
@@ -128,8 +125,7 @@ func zzHistory(k int, nkeys int, withTags bool) {
 		nops = 6
 	}
 	for step := 0; step < k; step++ {
-		d := zzverif.Int64("advance")
-		zzverif.Assume(d >= 0 && d <= 2000)
+		d := int64(zzverif.IntRange("advance", 0, 2000))
 		zzverif.AdvanceClock(time.Duration(d))
 		r.now += d
 		op := zzverif.Choice("op", nops)
@@ -144,12 +140,10 @@ func zzHistory(k int, nkeys int, withTags bool) {
 			}
 			zzCheckInvariants(c, r, "get")
 		case 1: // Set
-			n := zzverif.Int("valueLen")
-			zzverif.Assume(n >= 0 && n <= 6)
+			n := zzverif.IntRange("valueLen", 0, 6)
 			// values that can never fit are the subject of VerifC20_SetAlwaysReturns
 			zzverif.Assume(maxSize == 0 || int64(n) <= maxSize)
-			ttl := zzverif.Int64("ttl")
-			zzverif.Assume(ttl >= -1 && ttl <= 1000)
+			ttl := int64(zzverif.IntRange("ttl", -1, 1000))
 			v := zzverif.OpaqueString("value", n)
 			err := c.Set(key, v, time.Duration(ttl))
 			zzverif.Assert(err == nil, "set-error")
@@ -164,8 +158,7 @@ func zzHistory(k int, nkeys int, withTags bool) {
 			r.ents, r.size = nil, 0
 			zzCheckInvariants(c, r, "clear")
 		case 4: // SetWithTags (tag = key's first letter)
-			n := zzverif.Int("valueLen")
-			zzverif.Assume(n >= 0 && n <= 6)
+			n := zzverif.IntRange("valueLen", 0, 6)
 			zzverif.Assume(maxSize == 0 || int64(n) <= maxSize)
 			v := zzverif.OpaqueString("value", n)
 			c.SetWithTags(key, v, 0, []string{key[:1]})
@@ -205,16 +198,12 @@ func VerifC20_History4() { zzHistory(4, 3, false) }
 
 // Every Set returns, for every value size and configuration.
 func VerifC20_SetAlwaysReturns() {
-	capacity := zzverif.Int("capacity")
-	zzverif.Assume(capacity >= 0 && capacity <= 2)
-	maxSize := zzverif.Int64("maxSize")
-	zzverif.Assume(maxSize >= 0 && maxSize <= 8)
+	capacity := zzverif.IntRange("capacity", 0, 2)
+	maxSize := int64(zzverif.IntRange("maxSize", 0, 8))
 	c := zzNewCache(capacity, maxSize, 0)
 	defer c.Close()
-	n1 := zzverif.Int("valueLen1")
-	zzverif.Assume(n1 >= 0 && n1 <= 12)
-	n2 := zzverif.Int("valueLen2")
-	zzverif.Assume(n2 >= 0 && n2 <= 12)
+	n1 := zzverif.IntRange("valueLen1", 0, 12)
+	n2 := zzverif.IntRange("valueLen2", 0, 12)
 	zzverif.Obligation("LRUCache.Set returns")
 	c.Set("a", zzverif.OpaqueString("v1", n1), 0)
 	c.Set("b", zzverif.OpaqueString("v2", n2), 0)
@@ -230,8 +219,7 @@ func VerifC20_SetAlwaysReturns() {
 func VerifC20_Twin() {
 	c := zzNewCache(2, 0, 0)
 	defer c.Close()
-	n := zzverif.Int("valueLen")
-	zzverif.Assume(n >= 0 && n <= 6)
+	n := zzverif.IntRange("valueLen", 0, 6)
 	c.Set("a", zzverif.OpaqueString("v", n), 0)
 	_, ok := c.Get("a")
 	zzverif.Assert(!ok, "twin-must-fail")
